@@ -216,7 +216,7 @@ CHECKS = {
              "lines are also run as real subprocesses per interpreter. Import failure = violation; missing interpreter = "
              "inconclusive. The corpus includes score spellings and blanks whose treatment by the builtins float()/strip() "
              "follows the interpreter (underscores, every script's digits, exotic blanks), code points whose Unicode properties "
-             "differ between the interpreters' databases, default-protocol pickle / copy round trips, and the process-global "
+             "differ between the interpreters' databases, and the process-global "
              "state before import and after the corpus. Found and fixed F4 (2.7 dispatch), a 2.7 JSON whitespace divergence, "
              "F8 (hash-order of extraction results) and F10 (2.7 answers handled as bytes); open known findings: F5 (2.7 "
              "non-ASCII argv), F7 (2.7 unsorted key order), F9 (from_rh_vector follows the interpreter's float()), the U+180E "
